@@ -96,7 +96,7 @@ def main():
         }
         must_reach!("constant compared byte for byte");
     }
-    tiers! { %s: unwind(40, 40), check(), check(),
+    tiers1! { %s: unwind(40, 40), check(), check(),
         calls("%s"), bounds("one constant argument list (concrete)", "same") }
 """ % (name, expr.split("!")[0].replace("konst::", "konst::") + "!")
         fam.add(name, "%s: %s" % (kind, expr[:120]), plain, harness)
